@@ -27,14 +27,15 @@ def plan(tier, seed):
     cases = []
     for L in range(0, Lmax + 1):
         cases.append({"check": "blatt_weisskopf", "L": L, "cost": 1.0 + 0.6 * L})
-    for ph, L in itertools.product(PHSP, range(0, min(Lmax, 6) + 1)):
-        cases.append({"check": "width_norm", "phsp": ph, "L": L, "cost": 1.0 + 0.3 * L})
+    for ph, L in itertools.product(PHSP, range(0, min(Lmax, 8) + 1)):
+        for rep in range(1 if tier == "quick" else 6):
+            cases.append({"check": "width_norm", "phsp": ph, "L": L, "rep": rep, "cost": 1.0 + 0.3 * L})
     for ff, edw in itertools.product((False, True), repeat=2):
         for ph in PHSP:
-            for L in ((0, 1, 2, 3) if tier == "quick" else (0, 1, 2, 3, 4, 5, 6)):
+            for L in ((0, 1, 2, 3) if tier == "quick" else (0, 1, 2, 3, 4, 5, 6, 7, 8)):
                 if not edw and ph != "PhaseSpaceFactor":
                     continue  # phsp_factor is unused without energy-dependent width
-                for rep in range(2 if tier == "quick" else 5):
+                for rep in range(2 if tier == "quick" else 12):
                     cases.append({"check": "builder", "ff": ff, "edw": edw, "phsp": ph, "L": L, "rep": rep, "cost": 1.5 + 0.4 * L})
     for name in ("create_relativistic_breit_wigner", "create_relativistic_breit_wigner_with_ff",
                  "create_analytic_breit_wigner", "create_non_dynamic_with_ff", "create_non_dynamic"):
@@ -130,6 +131,8 @@ def _judge_builder(rec, ctx, ff, edw, phsp, resonance, pool, result, hook):
     a = np.asarray(eval_expr(expr, vals, fast=False)) * np.ones(len(m))
     b = np.asarray(eval_expr(ref, vals, fast=False)) * np.ones(len(m))
     okv = np.abs(a - b) <= 1e-10 * (np.abs(a) + np.abs(b)) + 1e-300
+    # a resonance below its decay threshold makes rho(m0^2) the square root of a negative real: NaN on *both* sides is agreement
+    okv |= np.isnan(a) & np.isnan(b)
     i = int(np.argmin(okv))
     rec.check(bool(okv.all()), "builder_vs_function",
               f"builder(ff={ff}, edw={edw}, phsp={feats['phsp']}, L={L}) = {a[i]} but public function API = {b[i]} at m={m[i]}",
@@ -212,10 +215,20 @@ def run_case(case, rec, ctx):
             a = np.asarray(f0(M0.astype(complex), W0, M1, M2, Dd)) * np.ones(n)
             b = np.asarray(f(M0.astype(complex) ** 2, M0.astype(complex), W0, M1, M2, Dd)) * np.ones(n)
         above = M0 > (M1 + M2)
+        # empirical conditioning (Chew-Mandelstam logs cancel for hierarchical masses): rounding-level input noise must not
+        # be read as a defect - the output change under three 1e-13 relative perturbations, times 1e3, widens the tolerance
+        noise = np.zeros(n)
+        with np.errstate(all="ignore"):
+            for _ in range(3):
+                pert = [x * (1 + 1e-13 * rng.normal(size=n)) for x in (M0, M1, M2, Dd)]
+                bp = np.asarray(f(pert[0].astype(complex) ** 2, pert[0].astype(complex), W0, pert[1], pert[2], pert[3])) * np.ones(n)
+                dlt = np.abs(bp - b)
+                noise = np.maximum(noise, np.where(np.isfinite(dlt), dlt, np.inf))
+        rec.stratum("width_norm_conditioning", "well" if np.median(noise / W0) < 1e-12 else "ill")
         for nm, v in (("symbolic s=m0^2", a), ("numeric s=m0^2", b)):
             # below threshold rho(m0^2) may vanish/be complex: ratio rho/rho0 is still 1 wherever it is defined
             good = np.isfinite(v)
-            ok = (np.abs(v - W0) <= 1e-9 * W0) | ~good
+            ok = (np.abs(v - W0) <= 1e-9 * W0 + 1e3 * noise) | ~good
             i = int(np.argmin(ok))
             rec.check(bool(ok.all()), "width_normalisation", f"Gamma(m0^2) = {v[i]} != Gamma0 = {W0[i]} ({nm}, {case['phsp']}, L={L})",
                       {"m0": M0[i], "m1": M1[i], "m2": M2[i], "d": Dd[i]}, feats)
